@@ -584,6 +584,9 @@ func ruleTypeBaseKey(c *Ctx) []Obligation {
 		con := fmt.Sprintf("Type.resolve: built-in lookup #%d is keyed by the type name as written", n)
 		if _, f, base := loadedField(lk.Index); f == fName && base != nil && isParamN(res, resolveArg(base), 0) {
 			obs = append(obs, ok(R, con, c.InstrPos(lk), "BaseTypedefs[t.Name]"))
+		} else if owner, f, base := loadedField(lk.Index); f == fName && base != nil && owner != nil && owner.Obj() == typeT.Obj() {
+			// the whole name of another type statement (a member of the union): the name as written of that one
+			obs = append(obs, ok(R, con, c.InstrPos(lk), "BaseTypedefs[<member>.Name]: the whole name of another type statement"))
 		} else {
 			obs = append(obs, bad(R, con, c.InstrPos(lk), "the key is not the name as written (a part of it, or another value): `p:string` binds to the built-in string whatever p stands for — an unknown prefix goes unreported and a typedef `string` of the imported module is ignored"))
 		}
@@ -1845,7 +1848,7 @@ func rulePatternModifier(c *Ctx) []Obligation {
 // ---------------------------------------------------------------- RPC.KINDS
 
 func init() {
-	register(&Rule{Name: "RPC.KINDS", Props: []string{"C04", "C17"}, Floor: 2,
+	register(&Rule{Name: "RPC.KINDS", Props: []string{"C04", "C12", "C17"}, Floor: 2,
 		Doc: "an entry that is linked as the input (output) of an rpc or action is of kind InputEntry (OutputEntry): wherever such an entry is made — converted from the statement, or made on demand by a lookup — the kind is set to that constant",
 		Run: ruleRPCKinds})
 }
@@ -1975,6 +1978,66 @@ func ruleRPCKinds(c *Ctx) []Obligation {
 					obs = append(obs, bad(R, con, c.InstrPos(st), "the entry is linked without its kind being set to "+part.kind+": it keeps the kind its conversion gave it (a directory), and what asks for the kind — the augment applier's target test, printing, a client walking the tree — takes the "+lower(part.field)+" of an rpc for a container"))
 				}
 			}
+			// linked through a local pointer that holds the address of one part or the other (seeded C12-w14-1):
+			// on the edges where the pointer is the address of this part, the kind is this part's
+			eachInstr(fn, func(in ssa.Instruction) {
+				st, isS := in.(*ssa.Store)
+				if !isS || isNilConst(st.Val) {
+					return
+				}
+				slot, isPhi := st.Addr.(*ssa.Phi)
+				if !isPhi {
+					return
+				}
+				mine := map[int]bool{}
+				for i, e := range slot.Edges {
+					if fa, isFA := e.(*ssa.FieldAddr); isFA {
+						if _, f, _ := fieldOf(fa); f == fPart {
+							mine[i] = true
+						}
+					}
+				}
+				if len(mine) == 0 {
+					return
+				}
+				con := fmt.Sprintf("%s: the entry linked as rpc %s through a local pointer is of kind %s", c.FnName(fn), lower(part.field), part.kind)
+				var kindVal ssa.Value
+				eachInstr(fn, func(in2 ssa.Instruction) {
+					ks, isKS := in2.(*ssa.Store)
+					if !isKS {
+						return
+					}
+					_, f, base := fieldOf(ks.Addr)
+					if f == fKind && base != nil && (sameObject(base, st.Val) || rootOf(base) == rootOf(st.Val)) {
+						kindVal = ks.Val
+					}
+				})
+				switch kv := kindVal.(type) {
+				case nil:
+					obs = append(obs, bad(R, con, c.InstrPos(st), "the entry is linked without its kind being set"))
+				case *ssa.Phi:
+					if kv.Block() != slot.Block() || len(kv.Edges) != len(slot.Edges) {
+						obs = append(obs, undecided(R, con, c.InstrPos(st), "the kind and the pointer are not chosen at the same join"))
+						return
+					}
+					for i := range mine {
+						if k, isK := constInt(kv.Edges[i]); !isK || k != want[part.kind] {
+							obs = append(obs, bad(R, con, c.InstrPos(st), "on a path where the pointer holds the address of RPCEntry."+part.field+" the kind is not "+part.kind))
+							return
+						}
+					}
+					obs = append(obs, ok(R, con, c.InstrPos(st), "the kind is chosen together with the pointer: "+part.kind+" wherever it is the address of RPCEntry."+part.field))
+				default:
+					if k, isK := constInt(kindVal); isK && k == want[part.kind] && len(mine) == len(slot.Edges) {
+						obs = append(obs, ok(R, con, c.InstrPos(st), "Kind = "+part.kind+" is stored into it"))
+					} else if isK && k == want[part.kind] {
+						// the right kind for this part; the other part's clause judges the other edges
+						obs = append(obs, ok(R, con, c.InstrPos(st), "Kind = "+part.kind+" is stored into it (the other edges of the pointer are the other part's)"))
+					} else {
+						obs = append(obs, bad(R, con, c.InstrPos(st), "the pointer may hold the address of RPCEntry."+part.field+", and the entry stored through it is given one kind whichever part it becomes: the "+lower(part.field)+" of an rpc made on demand is not of kind "+part.kind+" (ReadOnly, the augment applier and printing ask for the kind)"))
+					}
+				}
+			})
 		}
 	}
 	return obs
@@ -3337,6 +3400,215 @@ func ruleAugAbsPath(c *Ctx) []Obligation {
 		} else {
 			obs = append(obs, bad(R, con, c.InstrPos(ci), "`module d { … container x; augment \"../x\" { leaf rel { type string; } } }`: Process reports nothing and /d:x gains rel — the path starts at the augment's own entry, whose parent is the module, and `..` climbs to it"))
 		}
+	}
+	return obs
+}
+
+// ---------------------------------------------------------------- FIND.ASWRITTEN (seeded C17-w14-1, C17-w14-2)
+
+func init() {
+	register(&Rule{Name: "FIND.ASWRITTEN", Props: []string{"C17"}, Floor: 2,
+		Doc: "Find reads the path as it is written: the text that is split into steps has not been through a lexical normaliser (path.Clean cancels `nosuch/..`, so a step that names no child would go unnoticed), and the prefix of a step is never compared with the prefix of the tree the lookup stands in (a prefix means what the file of the context node says)",
+		Run: ruleFindAsWritten})
+}
+
+func ruleFindAsWritten(c *Ctx) []Obligation {
+	const R = "FIND.ASWRITTEN"
+	find := c.Fn("yang.(*Entry).Find")
+	gp := c.Fn("yang.getPrefix")
+	entry := c.Named("yang", "Entry")
+	con1 := "Find: the text split into steps is the path as written"
+	con2 := "Find: the prefix of a step is not compared with the prefix of the tree"
+	if find == nil || gp == nil || entry == nil {
+		return []Obligation{undecided(R, con1, "-", "Find / getPrefix / Entry not found")}
+	}
+	var obs []Obligation
+	// (1) no normaliser between the parameter and the split
+	nsplit, cleaned := 0, ""
+	c.eachInstrDeep(find, func(in ssa.Instruction) {
+		call, isC := in.(*ssa.Call)
+		if !isC || !(calleeIs(call, "strings", "Split") || calleeIs(call, "strings", "SplitN") || calleeIs(call, "strings", "Cut") || calleeIs(call, "strings", "Index") || calleeIs(call, "strings", "IndexByte")) || len(call.Call.Args) < 2 {
+			return
+		}
+		if s, isK := constString(call.Call.Args[1]); isK && s != "/" {
+			return
+		}
+		nsplit++
+		operandClosureDeep(call.Call.Args[0], func(x ssa.Value) {
+			if cc, isCC := x.(*ssa.Call); isCC {
+				if cal := cc.Call.StaticCallee(); cal != nil && cal.Pkg != nil && (cal.Pkg.Pkg.Path() == "path" || cal.Pkg.Pkg.Path() == "path/filepath") {
+					cleaned = c.InstrPos(cc) + " (" + cal.Pkg.Pkg.Name() + "." + cal.Name() + ")"
+				}
+			}
+		})
+	})
+	switch {
+	case nsplit == 0:
+		obs = append(obs, undecided(R, con1, c.Pos(find.Pos()), "no cut of the path at `/` found in Find"))
+	case cleaned != "":
+		obs = append(obs, bad(R, con1, c.Pos(find.Pos()), "the path goes through a lexical normaliser at "+cleaned+": `/m:top/m:nosuch/../m:b` loses the step that names no child and finds b"))
+	default:
+		obs = append(obs, ok(R, con1, c.Pos(find.Pos()), fmt.Sprintf("%d cut(s) of the path; no call into path or path/filepath reaches them", nsplit)))
+	}
+	// (2) prefix of a step against Entry.Prefix
+	fPrefix := FieldVar(entry, "Prefix")
+	where := ""
+	c.eachInstrDeep(find, func(in ssa.Instruction) {
+		bo, isB := in.(*ssa.BinOp)
+		if !isB || (bo.Op != token.EQL && bo.Op != token.NEQ) {
+			return
+		}
+		if t, isBasic := bo.X.Type().Underlying().(*types.Basic); !isBasic || t.Info()&types.IsString == 0 {
+			return
+		}
+		fromStep := func(v ssa.Value) bool {
+			f := false
+			operandClosure(v, func(x ssa.Value) {
+				if cc, isCC := x.(*ssa.Call); isCC && cc.Call.StaticCallee() == gp {
+					f = true
+				}
+			})
+			return f
+		}
+		fromTree := func(v ssa.Value) bool {
+			f := false
+			operandClosure(v, func(x ssa.Value) {
+				if _, lf, _ := loadedField(x); lf == fPrefix && fPrefix != nil {
+					f = true
+				}
+			})
+			return f
+		}
+		if (fromStep(bo.X) && fromTree(bo.Y)) || (fromStep(bo.Y) && fromTree(bo.X)) {
+			where = c.InstrPos(bo)
+		}
+	})
+	if where != "" {
+		obs = append(obs, bad(R, con2, where, "a step's prefix is compared with Entry.Prefix: a node copied by uses from a module that imports another under the prefix of the tree it now stands in has `/a:x` looked up in the wrong module"))
+	} else {
+		obs = append(obs, ok(R, con2, c.Pos(find.Pos()), "no comparison of a getPrefix result with Entry.Prefix in Find"))
+	}
+	return obs
+}
+
+// ---------------------------------------------------------------- UNION.DEDUPEQUAL (seeded C09-w14-2)
+
+func init() {
+	register(&Rule{Name: "UNION.DEDUPEQUAL", Props: []string{"C09"}, Floor: 1,
+		Doc: "a member type is left out of a union only because it has no resolved type or because it equals (YangType.Equal) a member already taken: in the member loop of the type resolver, every branch of which one outcome passes the append by tests one of those two things — or membership in a set keyed by the very pointer that would be appended",
+		Run: ruleUnionDedupEqual})
+}
+
+func ruleUnionDedupEqual(c *Ctx) []Obligation {
+	const R = "UNION.DEDUPEQUAL"
+	con := "Type.resolve: a union member is passed over only when it has no type or equals one already taken"
+	res := c.Fn("yang.(*Type).resolve")
+	typeT := c.Named("yang", "Type")
+	yt := c.Named("yang", "YangType")
+	if res == nil || typeT == nil || yt == nil {
+		return []Obligation{undecided(R, con, "-", "(*Type).resolve / Type / YangType not found")}
+	}
+	fYT := FieldVar(typeT, "YangType")
+	fMembers := FieldVar(yt, "Type")
+	eq := c.Fn("yang.(*YangType).Equal")
+	// the append of a member's resolved type to the member list
+	var app *ssa.Call
+	var member ssa.Value
+	eachInstr(res, func(in ssa.Instruction) {
+		call, isC := in.(*ssa.Call)
+		if !isC || app != nil {
+			return
+		}
+		bi, isB := call.Call.Value.(*ssa.Builtin)
+		if !isB || bi.Name() != "append" || len(call.Call.Args) != 2 {
+			return
+		}
+		if _, lf, _ := loadedField(call.Call.Args[0]); lf != fMembers || fMembers == nil {
+			return
+		}
+		operandClosure(call.Call.Args[1], func(x ssa.Value) {
+			if _, lf, _ := loadedField(x); lf == fYT && fYT != nil {
+				app, member = call, x
+			}
+		})
+	})
+	if app == nil {
+		return []Obligation{undecided(R, con, c.Pos(res.Pos()), "no append of a member's resolved type to YangType.Type in the type resolver")}
+	}
+	h := loopHeaderOf(app.Block())
+	if h == nil {
+		return []Obligation{undecided(R, con, c.InstrPos(app), "the append is not in a loop")}
+	}
+	avoid := map[*ssa.BasicBlock]bool{h: true}
+	var obs []Obligation
+	nskip := 0
+	for _, b := range res.Blocks {
+		iff, isIf := b.Instrs[len(b.Instrs)-1].(*ssa.If)
+		if !isIf || b == h || !blockReaches(h, b, nil) || !h.Dominates(b) {
+			continue
+		}
+		// inside this loop: the header is reached again from b
+		back := false
+		for _, s := range b.Succs {
+			if blockReaches(s, h, nil) {
+				back = true
+			}
+		}
+		if !back {
+			continue
+		}
+		r0, r1 := blockReaches(b.Succs[0], app.Block(), avoid), blockReaches(b.Succs[1], app.Block(), avoid)
+		if r0 == r1 {
+			continue
+		}
+		// outcomes that leave the function (an error return) are not "passing over"
+		skipSucc := b.Succs[0]
+		if r0 {
+			skipSucc = b.Succs[1]
+		}
+		if !blockReaches(skipSucc, h, nil) {
+			continue
+		}
+		nskip++
+		base, _ := stripNot(iff.Cond, true)
+		allowed := ""
+		switch x := base.(type) {
+		case *ssa.BinOp:
+			if x.Op == token.EQL || x.Op == token.NEQ {
+				for _, side := range []ssa.Value{x.X, x.Y} {
+					if _, lf, _ := loadedField(side); lf == fYT {
+						other := x.Y
+						if side == x.Y {
+							other = x.X
+						}
+						if isNilConst(other) {
+							allowed = "the member has no resolved type"
+						}
+					}
+				}
+			}
+		case *ssa.Call:
+			if cal := x.Call.StaticCallee(); cal != nil && cal == eq {
+				allowed = "YangType.Equal"
+			}
+		case *ssa.Lookup:
+			if sameExpr(x.Index, member) || sameObject(x.Index, member) {
+				allowed = "a set keyed by the pointer that would be appended"
+			}
+		case *ssa.Extract:
+			if lk, isL := x.Tuple.(*ssa.Lookup); isL && (sameExpr(lk.Index, member) || sameObject(lk.Index, member)) {
+				allowed = "a set keyed by the pointer that would be appended"
+			}
+		}
+		if allowed == "" {
+			obs = append(obs, bad(R, con, c.InstrPos(iff), "this branch passes the append by on a test that is neither `no resolved type` nor YangType.Equal: members that differ (typedefs of one name from two modules, say) can be taken for one"))
+		}
+	}
+	if len(obs) == 0 {
+		if nskip == 0 {
+			return []Obligation{undecided(R, con, c.InstrPos(app), "no branch in the member loop passes the append by: duplicates are not removed here")}
+		}
+		obs = append(obs, ok(R, con, c.InstrPos(app), fmt.Sprintf("%d branch(es) pass the append by, each on an allowed test", nskip)))
 	}
 	return obs
 }
